@@ -217,11 +217,10 @@ pub fn examples(th: bool) -> Vec<Example> {
     }
     // ---------------------------------------------------------------- lcs, longer strings, one worker thread (D16)
     {
-        // D16 = the known finding D2 (pooled diagram with long arcs: a sub-problem lands in its own cut-set) seen through the lcs
-        // example, whose solver is the parallel caching pooled one: the re-enqueued sub-problem was marked explored when first popped
-        // and is dropped => a suboptimal length printed as proved with -w 1.  It takes strings of length 6.  These runs use ONE
-        // worker thread: with several workers whether the drop happens depends on the operating system's schedule, and a known
-        // finding restricted to listed inputs must be deterministic.
+        // D16 = D2 (pooled diagram with long arcs: a sub-problem landed in its own cut-set) seen through the lcs example, whose
+        // solver is the parallel caching pooled one: the re-enqueued sub-problem had been marked explored when first popped and was
+        // dropped => a suboptimal length printed as proved with -w 1.  It takes strings of length 6.  Repaired (see DESIGN section 4).
+        // These runs use ONE worker thread (while D16 was a known finding restricted to listed inputs it had to be deterministic).
         let maxlen = 6usize;
         let mut strs: Vec<String> = vec![];
         for l in 1..=maxlen { for m in 0..(1u32 << l) { strs.push((0..l).map(|i| if m & (1 << i) != 0 { 'b' } else { 'a' }).collect()); } }
